@@ -20,5 +20,7 @@ SweepCons == {"if", "dol", "where", "forall"}
 SimCons == ExecCons
 Set123 == {1, 2, 3}
 SubOnly == {"sub"}
+OneUnits == {"prog", "sub", "fun", "mod"}
+OneCons == {"if", "do", "dol", "selcase", "where"}
 Spec == GSpec
 =============================================================================
